@@ -395,7 +395,10 @@ def cmd_check(args):
 
     # ---- Kani harnesses
     kres = None
-    if conf.get("kani"):
+    if conf.get("kani") and os.environ.get("VERIF_SKIP_KANI") == "1":
+        # developer switch for fast mutation loops: the Kani harnesses are NOT run and the check is therefore undecided at best
+        undecided.append("VERIF_SKIP_KANI=1: Kani harnesses skipped (developer mode, not a valid check run)")
+    elif conf.get("kani"):
         from vxlib import kani
         kres = kani.run_harnesses(pid, conf["kani"], tier)
         for h in kres["harnesses"]:
